@@ -73,13 +73,18 @@ def rowKeyOf (j : Json) : R RowKey :=
 
 def jPair (p : Int × Int) : Json := Json.arr #[jInt p.1, jInt p.2]
 
-/-- is the key in the property's domain: bounds in `[-n, n] ∪ None`, not reversed, step 1;
-scalar in `[-n, n)` -/
+/-- is the key in the property's domain: slice bounds `None` or `≥ -n` (bounds beyond the end are
+clipped like Python slices), not reversed, step 1; scalar in `[-n, n)` -/
 def inDomain (n : Nat) : RowKey → Bool
   | .slice lo hi step =>
-    decide (step = none ∨ step = some 1) && decide (InDom n lo) && decide (InDom n hi) &&
+    decide (step = none ∨ step = some 1) && decide (InDomW n lo) && decide (InDomW n hi) &&
       decide ((pySliceIndices n lo hi).1 ≤ (pySliceIndices n lo hi).2)
   | .scalar k => decide (-(n : Int) ≤ k) && decide (k < (n : Int))
+
+/-- the narrower domain `[-n, n] ∪ None` on which `_process_slice` itself equals `slice.indices` -/
+def inNarrow (n : Nat) : RowKey → Bool
+  | .slice lo hi _ => decide (InDom n lo) && decide (InDom n hi)
+  | .scalar _ => false
 
 def srcOf (a : Json) : R Src := do
   let t ← fld a "table" >>= storedOf
@@ -126,7 +131,7 @@ def handle : Handler := fun op a =>
           | .slice lo hi _ => let p := pySliceIndices n lo hi; Json.arr #[jNat p.1, jNat p.2]
           | .scalar _ => Json.null
         Json.mkObj [("model", jExcept jPair (processKey n k)), ("indices", spec),
-                    ("in_domain", Json.bool (inDomain n k))]) keys
+                    ("in_domain", Json.bool (inDomain n k)), ("narrow", Json.bool (inNarrow n k))]) keys
   | "C14.select" => some do
       let src ← srcOf a
       let nmax ← getNat a "nmax"
